@@ -374,6 +374,22 @@ fn types_depth2() -> Vec<T> {
             container_unions.push(T::TupleVar(Box::new(u)));
         }
     }
+    // every three-member union of distinct atoms (both orders) and every fixed 3-tuple of atoms
+    for i in 0..a.len() {
+        for j in (i + 1)..a.len() {
+            for k in (j + 1)..a.len() {
+                container_unions.push(T::Union(vec![a[i].clone(), a[j].clone(), a[k].clone()]));
+                container_unions.push(T::Union(vec![a[k].clone(), a[j].clone(), a[i].clone()]));
+            }
+        }
+    }
+    for x in &a {
+        for y in &a {
+            for z in &a {
+                container_unions.push(T::TupleOf(vec![x.clone(), y.clone(), z.clone()]));
+            }
+        }
+    }
     let mut all = a.clone();
     all.extend(d1.clone());
     all.extend(container_unions);
